@@ -404,7 +404,36 @@ func instrAfterOnPath(pa *Path, a, b ssa.Instruction) bool {
 // flooredParam checks that v, on this path at step, equals max(1, param). Returns "" when it does,
 // otherwise the reason.
 func flooredParam(pa *Path, v ssa.Value, param *ssa.Parameter, step int) string {
+	return flooredParamD(pa, v, param, step, 0)
+}
+
+func flooredParamD(pa *Path, v ssa.Value, param *ssa.Parameter, step int, depth int) string {
 	r := pa.ResolveWidths(v, step)
+	// the value re-read from a field it was stored into earlier on the path (s.limit = max(1, limit); ... UpdateLimit(s.limit))
+	if fr, base, ok := loadedField(r); ok && depth < 3 {
+		ld, _ := r.(ssa.Instruction)
+		var lastVal ssa.Value
+		lastStep := -1
+		done := false
+		pa.Each(func(st int, ins ssa.Instruction) bool {
+			if ins == ld || st > step {
+				done = true
+				return false
+			}
+			if sto, isS := ins.(*ssa.Store); isS {
+				if fa, isFA := sto.Addr.(*ssa.FieldAddr); isFA {
+					if f2, b2, _ := fieldOf(fa); sameField(f2, fr) && AccessPath(b2).String() == AccessPath(base).String() {
+						lastVal, lastStep = sto.Val, st
+					}
+				}
+			}
+			return true
+		})
+		_ = done
+		if lastVal != nil {
+			return flooredParamD(pa, lastVal, param, lastStep, depth+1)
+		}
+	}
 	if r == ssa.Value(param) {
 		if lb, ok := pa.IntLowerBound(param, step+1); ok && lb >= 1 {
 			return ""
